@@ -102,6 +102,7 @@ class _Exec(Contract):
         st.check("P1:the-functions-exception-object-is-raised-unchanged",
                  z3.BoolVal(self.outcome is not None and self.outcome[0] == "exc") if not (self.outcome and self.outcome[0] == "exc")
                  else exc == self.outcome[1])
+        exception_untouched(it, exc, self.mark, "P1:the-exception-reaches-the-caller-with-its-cause-chain-and-attributes-as-the-function-left-them")
 
 
 class ExecCall(_Exec):
@@ -203,6 +204,7 @@ class WrapAsync(Contract):
         self.check_call(it)
         r = [e for e in it.st.events if e[0] == "oracle-exc"]
         it.st.check("P2:the-functions-exception-object-is-raised-unchanged", z3.BoolVal(bool(r)) if not r else exc == r[0][3])
+        exception_untouched(it, exc, 0, "P2:the-exception-reaches-the-caller-with-its-cause-chain-and-attributes-as-the-function-left-them")
 
 
 class WrapAsyncFactory(Contract):
@@ -350,6 +352,7 @@ class _Traced(Contract):
         ok = len(traces) == 2 and traces[1][1] == "ResultTrace.of" and len(traces[1][2].pos) == 1 and len(excs) == 1 \
             and traces[1][2].pos[0].eq(excs[0][3]) and len(records) == 2 and records[1][1].eq(traces[1][3])
         st.check("P3:the-exception-is-recorded-as-the-outcome", z3.BoolVal(bool(ok)))
+        exception_untouched(it, exc, 0, "P3:the-exception-reaches-the-caller-with-its-cause-chain-and-attributes-as-the-function-left-them")
 
 
 class ArgumentsTraceOf(Contract):
